@@ -1,0 +1,38 @@
+// Copyright 2017-2021 Lei Ni (nilei81@gmail.com) and other contributors.
+//
+// Licensed under the Apache License, Version 2.0 (the "License");
+// you may not use this file except in compliance with the License.
+// You may obtain a copy of the License at
+//
+//     http://www.apache.org/licenses/LICENSE-2.0
+//
+// Unless required by applicable law or agreed to in writing, software
+// distributed under the License is distributed on an "AS IS" BASIS,
+// WITHOUT WARRANTIES OR CONDITIONS OF ANY KIND, either express or implied.
+// See the License for the specific language governing permissions and
+// limitations under the License.
+
+//go:build verif
+
+package transport
+
+import (
+	"github.com/lni/dragonboat/v4/internal/vfs"
+	pb "github.com/lni/dragonboat/v4/raftpb"
+)
+
+// This file only exists under the verif build tag; it exports the sender side
+// snapshot chunking helpers for external runtime monitors.
+
+// VerifSnapshotChunkSize is the chunk size used by the sender.
+var VerifSnapshotChunkSize = snapshotChunkSize
+
+// VerifSplitSnapshotMessage exposes splitSnapshotMessage.
+func VerifSplitSnapshotMessage(m pb.Message, fs vfs.IFS) ([]pb.Chunk, error) {
+	return splitSnapshotMessage(m, fs)
+}
+
+// VerifLoadChunkData exposes loadChunkData.
+func VerifLoadChunkData(chunk pb.Chunk, data []byte, fs vfs.IFS) ([]byte, error) {
+	return loadChunkData(chunk, data, fs)
+}
